@@ -8,7 +8,9 @@
     simple_eq_generic_partial equivalent_spellings_agree self_prefix_irrelevant_nonpositional
     dslash_is_descendant simple_eq_generic_kmp simple_eq_generic_fragments_partial
     self_prefix_default_choice simple_eq_generic_fragments_pattern true_pred_default_choice
-    simple_eq_generic_spellings_partial simple_eq_generic_spellings_pattern
+    simple_eq_generic_spellings_partial simple_eq_generic_spellings_pattern simple_eq_generic_attr
+    simple_eq_generic interior_attribute_not_simple true_pred_default_choice_full
+    self_prefix_default_choice_pattern supports_probe_systematic
 -/
 import Genshi.Model.Path
 import Genshi.Model.PathParse
@@ -22,6 +24,7 @@ import Genshi.Lemmas.PathKmpRun
 import Genshi.Lemmas.PathFrags
 import Genshi.Lemmas.PathFragsSelf
 import Genshi.Lemmas.PathFragsPattern
+import Genshi.Lemmas.PathFragsAttr
 namespace Genshi.Props.C17
 open Genshi Genshi.Path
 
@@ -36,6 +39,15 @@ def modelSupports (text : Str) : List Bool :=
 /-- The model's `supports` predicates give, on the basis of path shapes, the verdicts probed
     from the real strategy classes on every run (`Gen.Path.supportsProbe`). -/
 theorem supports_probe_agrees : ∀ p ∈ Gen.Path.supportsProbe, modelSupports p.1 = p.2 := by
+  decide +kernel
+
+/-- The same on the systematic basis the translator probes on every run
+    (`Gen.Path.supportsProbeSys`): every single step (7 axis spellings × 10 node tests, with and
+    without a predicate), every pair and every triple of steps over a reduced alphabet — the real
+    parser's reading of each text and the real classes' three verdicts against `parse` and the
+    model's `supports`. -/
+theorem supports_probe_systematic :
+    ∀ chunk ∈ Gen.Path.supportsProbeSys, ∀ p ∈ chunk, modelSupports p.1 = p.2 := by
   decide +kernel
 
 /-- first non-`None` of a list of results -/
@@ -839,5 +851,302 @@ example : runTest (pathTest [pathSelfMerge] true (some .simple)).1 [] []
     (pathTest [pathSelfMerge] true (some .simple)).2
     (Node.elem ⟨[], ['r']⟩ [] [Node.elem ⟨[], ['x']⟩ [] [Node.elem ⟨[], ['a']⟩ [] [Node.elem ⟨[], ['b']⟩ [] []]]]).flatten
     = [.none, .none, .none, .bool true, .none, .none, .none, .none] := by decide +kernel
+
+/-! ## A final attribute step; the full statement -/
+
+theorem gSteps_snoc_attr_pattern (q : LocPath) (hq : ∀ s ∈ q, Frags.SStep s) (hne : q ≠ []) (a : Step)
+    (ha : a.axis = .attribute) : gSteps (q ++ [a]) true = Frags.patOf q ++ [a] := by
+  cases q with
+  | nil => exact absurd rfl hne
+  | cons s0 q' =>
+    obtain ⟨hp0, hsim, hna⟩ := hq s0 List.mem_cons_self
+    obtain ⟨ax, g, preds⟩ := s0
+    simp only at hp0 hsim hna
+    subst hp0
+    have hsd : ∀ r : LocPath, stripDot (⟨ax, g, []⟩ :: r) = ⟨ax, g, []⟩ :: r := by
+      intro r
+      cases r with
+      | nil => rfl
+      | cons x xs => rcases Kmp.simpleT_cases g hsim with ⟨n, rfl⟩ | rfl | rfl <;> simp [stripDot]
+    have hax : (ax == Axis.attribute) = false := by cases ax <;> simp_all
+    simp [gSteps, hsd, hax, Frags.patOf]
+
+/-- **simple_eq_generic with a final attribute step**: `q/@a` for ANY supported spelling `q`
+    (child / descendant / descendant-or-self / self steps in any order — so also after a KMP
+    fragment: `descendant::a/b/@x`, `a//b/c/@x` —, name / `text()` / `comment()` tests) and any
+    attribute step `a`, BOTH modes, both caller behaviours, every element tree:
+    SimplePathStrategy reports at every event what GenericStrategy reports.
+
+    Simple: `__init__` stores the attribute test in the last fragment of the list it builds for
+    `q` (`fragments_snoc_attr`); the matcher never looks at it except to form the result
+    (`icLoop_setAttr`, `pStep_setAttr`: induction over the run with the invariant "the entries
+    on the stack point to non-empty fragments"), so the run is the run on `q` with `True`
+    replaced by the non-empty value of the attribute test (`simple_attr_trace`; "or None" is
+    genshi fix ef611bc).  Generic: `attr_run` — the run on the steps before the attribute step,
+    gated the same way.  Both runs on `q` mark the XPath node set of `q` in the given mode
+    (`simple_spelling_marks`, `RR_attrBase` / `RR_patOf`). -/
+theorem simple_eq_generic_attr (q : LocPath) (hq : ∀ s ∈ q, Frags.SStep s) (hne : q ≠ []) (a : Step)
+    (ha : a.axis = .attribute) (ic : Bool)
+    (ns : NsMap) (vs : Vars) (skip : Bool)
+    (tag : QName) (attrs : AttrList) (kids : List Node)
+    (hcl : (Node.elem tag attrs kids).clean = true)
+    (hn : AllNodes (NodeFor q ns vs) (.elem tag attrs kids)) :
+    traceCaller (pathTest [q ++ [a]] ic (some .simple)).1 ns vs skip
+        (pathTest [q ++ [a]] ic (some .simple)).2 (Node.elem tag attrs kids).flatten
+      = traceCaller (pathTest [q ++ [a]] ic (some .generic)).1 ns vs skip
+        (pathTest [q ++ [a]] ic (some .generic)).2 (Node.elem tag attrs kids).flatten := by
+  have hkcl : cleanList kids = true := by simpa [Node.clean] using hcl
+  have hSq := Frags.stepsOk_of_sstep ns vs q hq hne
+  obtain ⟨m1, m2⟩ := Frags.simple_spelling_marks ns (toXVars vs) ic q hq hne tag attrs kids hkcl
+  simp only [traceCaller, pathTest, List.map_cons, List.map_nil, mkMatcher]
+  congr 1
+  rw [Frags.runTest_simpleL, runTest_generic, Frags.simple_attr_trace ns (toXVars vs) q hq hne a ha ic,
+    vals_of_marks _ _ m1 (eventLocs_nodup _ []), gateS_fun]
+  cases ic with
+  | false =>
+    rw [gSteps_snoc_attr q a ha,
+      attr_run ns vs (attrBase q) a (stepsOk_attrBase ns vs q (Or.inr hSq)) ha _ hcl
+        (AllNodes.imp (fun n h => nodeFor_attrBase ns vs q n h) _ hn)]
+    congr 1
+    apply markVals_congr
+    intro x
+    rw [m2 x, RR_attrBase ns vs q (Or.inr hSq)]
+    rfl
+  | true =>
+    have hpp := Frags.sstep_patOf q hq
+    have hpne : Frags.patOf q ≠ [] := by cases q <;> simp_all [Frags.patOf]
+    have hS := Frags.stepsOk_of_sstep ns vs (Frags.patOf q) hpp hpne
+    have hN : AllNodes (NodeFor (Frags.patOf q) ns vs) (.elem tag attrs kids) := by
+      refine AllNodes.imp (fun n h => ?_) _ hn
+      obtain ⟨h1, h2, h3, _⟩ := h
+      refine ⟨h1, h2, h3, ?_⟩
+      intro s hs p hp
+      rw [(hpp s hs).1] at hp; simp at hp
+    rw [gSteps_snoc_attr_pattern q hq hne a ha, attr_run ns vs (Frags.patOf q) a hS ha _ hcl hN]
+    congr 1
+    apply markVals_congr
+    intro x
+    rw [m2 x, RR_patOf]
+    rfl
+
+/-- `descendant::a/b/@x`: a KMP fragment, then an attribute step -/
+def pathKmpAttr : LocPath :=
+  [⟨.descendant, .localName false ['a'], []⟩, ⟨.child, .localName false ['b'], []⟩,
+   ⟨.attribute, .localName true ['x'], []⟩]
+
+-- non-vacuity: on <r><a><a><b x="1"/></a></a></r> the attribute of the <b> is reported
+example : fragments pathKmpAttr
+    = some [⟨[], [], none, false⟩,
+            ⟨[.localName false ['a'], .localName false ['b']], [0, 0], some (.localName true ['x']), false⟩] := by decide
+example : runTest (pathTest [pathKmpAttr] false (some .simple)).1 [] []
+    (pathTest [pathKmpAttr] false (some .simple)).2
+    (Node.elem ⟨[], ['r']⟩ [] [Node.elem ⟨[], ['a']⟩ [] [Node.elem ⟨[], ['a']⟩ []
+      [Node.elem ⟨[], ['b']⟩ [(⟨[], ['x']⟩, ['1'])] []]]]).flatten
+    = [.none, .none, .none, .attrs [(⟨[], ['x']⟩, ['1'])], .none, .none, .none, .none] := by decide +kernel
+
+/-- the shapes `SimplePathStrategy.supports` accepts: a supported spelling, optionally followed
+    by one attribute step (`hpt`: what the parser guarantees — a name test off the attribute
+    axis carries the element principal type) -/
+theorem supports_cases (p : LocPath) (hsup : simpleSupports p = true)
+    (hpt : ∀ s ∈ p, s.axis ≠ .attribute → s.test.attrFlag = false) :
+    ((∀ s ∈ p, Frags.SStep s) ∧ p ≠ []) ∨
+    ∃ q a, p = q ++ [a] ∧ (∀ s ∈ q, Frags.SStep s) ∧ q ≠ [] ∧ a.axis = .attribute := by
+  cases p with
+  | nil => simp [simpleSupports] at hsup
+  | cons s0 rest =>
+    simp only [simpleSupports, Bool.and_eq_true, List.all_eq_true, bne_iff_ne, ne_eq] at hsup
+    obtain ⟨⟨h0, hall⟩, hdl⟩ := hsup
+    have hss : ∀ s ∈ s0 :: rest, s.axis ≠ .attribute → Frags.SStep s := by
+      intro s hs hax
+      have h1 := hall s hs
+      have h2 := hpt s hs hax
+      simp only [Bool.and_eq_true, List.isEmpty_iff] at h1
+      refine ⟨h1.1, ?_, hax⟩
+      cases ht : s.test <;> simp_all [Kmp.simpleT, NodeTest.attrFlag]
+    have hsplit : s0 :: rest = (s0 :: rest).dropLast ++ [(s0 :: rest).getLast (by simp)] :=
+      (List.dropLast_concat_getLast (by simp)).symm
+    by_cases hlast : ((s0 :: rest).getLast (by simp)).axis = .attribute
+    · refine Or.inr ⟨_, _, hsplit, fun s hs => hss s (List.dropLast_subset _ hs) (hdl s hs), ?_, hlast⟩
+      cases rest with
+      | nil => simp at hlast; exact absurd hlast h0
+      | cons r rs => simp
+    · refine Or.inl ⟨fun s hs => hss s hs ?_, by simp⟩
+      rw [hsplit] at hs
+      rcases List.mem_append.mp hs with h | h
+      · exact hdl s h
+      · simp only [List.mem_singleton] at h
+        rw [h]; exact hlast
+
+/-- **simple_eq_generic** — the full statement.  For EVERY location path
+    `SimplePathStrategy.supports` accepts (name / `text()` / `comment()` tests, no predicates,
+    any mixture of child, descendant, descendant-or-self and self steps, an optional final
+    attribute step; after genshi fix e131362 an attribute step in front of another step is no
+    longer accepted), BOTH modes (`ignore_context`), both caller behaviours and every element
+    tree, SimplePathStrategy reports, event by event, exactly what GenericStrategy reports.
+    (`simple_eq_generic_spellings_partial`, `simple_eq_generic_spellings_pattern`,
+    `simple_eq_generic_attr`, joined by `supports_cases`.)
+    Hypotheses: the parser's typing of name tests (`hpt`); on the tree as in
+    `equivalent_spellings_agree` (one element, `clean`, `NodeFor`: vacuous here — no predicates). -/
+theorem simple_eq_generic (p : LocPath) (hsup : simpleSupports p = true)
+    (hpt : ∀ s ∈ p, s.axis ≠ .attribute → s.test.attrFlag = false) (ic : Bool)
+    (ns : NsMap) (vs : Vars) (skip : Bool)
+    (tag : QName) (attrs : AttrList) (kids : List Node)
+    (hcl : (Node.elem tag attrs kids).clean = true)
+    (hn : AllNodes (NodeFor p ns vs) (.elem tag attrs kids)) :
+    traceCaller (pathTest [p] ic (some .simple)).1 ns vs skip
+        (pathTest [p] ic (some .simple)).2 (Node.elem tag attrs kids).flatten
+      = traceCaller (pathTest [p] ic (some .generic)).1 ns vs skip
+        (pathTest [p] ic (some .generic)).2 (Node.elem tag attrs kids).flatten := by
+  rcases supports_cases p hsup hpt with ⟨hp, hne⟩ | ⟨q, a, rfl, hq, hne, ha⟩
+  · cases ic with
+    | false => exact simple_eq_generic_spellings_partial p hp hne ns vs skip tag attrs kids hcl hn
+    | true => exact simple_eq_generic_spellings_pattern p hp hne ns vs skip tag attrs kids hcl hn
+  · refine simple_eq_generic_attr q hq hne a ha ic ns vs skip tag attrs kids hcl ?_
+    refine AllNodes.imp (fun n h => ?_) _ hn
+    obtain ⟨h1, h2, h3, h4⟩ := h
+    exact ⟨h1, h2, h3, fun s hs => h4 s (List.mem_append_left _ hs)⟩
+
+-- non-vacuity: the hypotheses hold of `descendant::a/b/@x`
+example : simpleSupports pathKmpAttr = true := by decide
+example : ∀ s ∈ pathKmpAttr, s.axis ≠ .attribute → s.test.attrFlag = false := by decide
+
+/-- `a/@b/c` — an attribute step in front of another step: `SimplePathStrategy.__init__` stops
+    reading at the attribute step and would report the `b` attributes of `a`, GenericStrategy
+    (and XPath) nothing; since fix e131362 `supports` rejects the path (fixed finding
+    C17-simple-interior-attribute) -/
+def pathInteriorAttr : LocPath :=
+  [⟨.child, .localName false ['a'], []⟩, ⟨.attribute, .localName true ['b'], []⟩, ⟨.child, .localName false ['c'], []⟩]
+
+theorem interior_attribute_not_simple :
+    simpleSupports pathInteriorAttr = false ∧ chooseStrategy pathInteriorAttr = some .generic ∧
+    runTest (pathTest [pathInteriorAttr] false (some .simple)).1 [] [] (pathTest [pathInteriorAttr] false (some .simple)).2
+        (Node.elem ⟨[], ['r']⟩ [] [Node.elem ⟨[], ['a']⟩ [(⟨[], ['b']⟩, ['1'])] []]).flatten
+      = [.none, .attrs [(⟨[], ['b']⟩, ['1'])], .none, .none] ∧
+    runTest (pathTest [pathInteriorAttr] false (some .generic)).1 [] [] (pathTest [pathInteriorAttr] false (some .generic)).2
+        (Node.elem ⟨[], ['r']⟩ [] [Node.elem ⟨[], ['a']⟩ [(⟨[], ['b']⟩, ['1'])] []]).flatten
+      = [.none, .none, .none, .none] := by decide +kernel
+
+/-! ## `./p`, `p[true-pred]` and `p` with the strategies `Path.__init__` picks — both modes, every supported path -/
+
+theorem first_test_of_supports (p : LocPath) (hsup : simpleSupports p = true) :
+    ∃ s0 rest, p = s0 :: rest ∧ s0.test ≠ .node ∧ s0.axis ≠ .attribute := by
+  cases p with
+  | nil => simp [simpleSupports] at hsup
+  | cons s0 rest =>
+    simp only [simpleSupports, Bool.and_eq_true, List.all_eq_true, bne_iff_ne, ne_eq] at hsup
+    obtain ⟨⟨h0, hall⟩, _⟩ := hsup
+    have h1 := hall s0 List.mem_cons_self
+    refine ⟨s0, rest, rfl, ?_, h0⟩
+    intro hn; rw [hn] at h1; simp at h1
+
+theorem stripDot_id (s0 : Step) (rest : LocPath) (h : s0.test ≠ .node) : stripDot (s0 :: rest) = s0 :: rest := by
+  cases rest with
+  | nil => rfl
+  | cons x xs =>
+    have : (s0.test == NodeTest.node) = false := by simpa using h
+    simp [stripDot, this]
+
+theorem chooses_simple_of_supports (p : LocPath) (hsup : simpleSupports p = true) (h2 : 2 ≤ p.length) :
+    chooseStrategy p = some .simple := by
+  have ho : strategyOrder = [.single, .simple, .generic] := by decide
+  have h1 : singleSupports p = false := by unfold singleSupports; exact beq_false_of_ne (by omega)
+  simp [chooseStrategy, ho, List.find?, Strategy.supports, h1, hsup]
+
+theorem chooses_generic_dot (p : LocPath) (hne : p ≠ []) : chooseStrategy (dot :: p) = some .generic := by
+  have ho : strategyOrder = [.single, .simple, .generic] := by decide
+  have h1 : singleSupports (dot :: p) = false := by
+    cases p with
+    | nil => exact absurd rfl hne
+    | cons a l => simp [singleSupports]
+  have hs : simpleSupports (dot :: p) = false := by simp [simpleSupports, dot]
+  simp [chooseStrategy, ho, List.find?, Strategy.supports, h1, hs]
+
+theorem all2_gSteps_pattern (ns : NsMap) (vs : Vars) (p1 p2 : LocPath) (h : All2 (StepEq ns vs) p1 p2)
+    (hnode : ∀ s0 rest, p2 = s0 :: rest → s0.test ≠ .node) :
+    All2 (StepEq ns vs) (gSteps p1 true) (gSteps p2 true) := by
+  cases h with
+  | nil => simp [gSteps, stripDot]; exact All2.nil
+  | @cons a b l l' hab hl =>
+    have hb := hnode b l' rfl
+    have ha : a.test ≠ .node := by rw [hab.2.1]; exact hb
+    have hax : a.axis = b.axis := hab.1
+    simp only [gSteps, if_true, stripDot_id a l ha, stripDot_id b l' hb, hax]
+    split
+    · exact All2.cons (StepEq.refl ns vs dotSlashSlash) (All2.cons hab hl)
+    · exact All2.cons ⟨rfl, hab.2.1, hab.2.2.1, hab.2.2.2⟩ hl
+
+/-- **true_pred_irrelevant with the strategies `Path.__init__` picks, in full**: for EVERY
+    path `p` of two or more steps that SimplePathStrategy supports (a final attribute step
+    included), BOTH modes, an always-true non-positional predicate `t` inserted anywhere:
+    `Path.__init__` hands `p` to SimplePathStrategy and the decorated path to GenericStrategy,
+    and the two report the same at every event (`gStep_congr` through `gSteps` in either mode,
+    then `simple_eq_generic`). -/
+theorem true_pred_default_choice_full (p : LocPath) (hsup : simpleSupports p = true)
+    (hpt : ∀ s ∈ p, s.axis ≠ .attribute → s.test.attrFlag = false) (h2 : 2 ≤ p.length) (ic : Bool)
+    (ns : NsMap) (vs : Vars) (t : Expr) (ht : AlwaysTrue ns vs t) (i k : Nat) (hi : i < p.length)
+    (skip : Bool) (tag : QName) (attrs : AttrList) (kids : List Node)
+    (hcl : (Node.elem tag attrs kids).clean = true)
+    (hn : AllNodes (NodeFor p ns vs) (.elem tag attrs kids)) :
+    (chooseStrategy (insertPred p i k t) = some .generic ∧ chooseStrategy p = some .simple) ∧
+    traceCaller (pathTest [insertPred p i k t] ic).1 ns vs skip
+        (pathTest [insertPred p i k t] ic).2 (Node.elem tag attrs kids).flatten
+      = traceCaller (pathTest [p] ic).1 ns vs skip
+        (pathTest [p] ic).2 (Node.elem tag attrs kids).flatten := by
+  have ho : strategyOrder = [.single, .simple, .generic] := by decide
+  have hlen : (insertPred p i k t).length = p.length := by simp [insertPred]
+  have hc1 : chooseStrategy (insertPred p i k t) = some .generic := by
+    have h1 : singleSupports (insertPred p i k t) = false := by
+      unfold singleSupports; rw [hlen]; exact beq_false_of_ne (by omega)
+    have hs : simpleSupports (insertPred p i k t) = false := by
+      obtain ⟨s, hs, hp⟩ := insertPred_preds p i k t hi
+      exact simpleSupports_false_of_preds _ s hs hp
+    simp [chooseStrategy, ho, List.find?, Strategy.supports, h1, hs]
+  have hc2 := chooses_simple_of_supports p hsup h2
+  refine ⟨⟨hc1, hc2⟩, ?_⟩
+  have e2 := simple_eq_generic p hsup hpt ic ns vs skip tag attrs kids hcl hn
+  have hstep : gStep (gSteps (insertPred p i k t) ic) ns vs = gStep (gSteps p ic) ns vs := by
+    funext st e
+    cases ic with
+    | false => exact gStep_congr ns vs _ _ (all2_gSteps ns vs _ _ (all2_insert ns vs t ht k _ i)) st e
+    | true =>
+      refine gStep_congr ns vs _ _ (all2_gSteps_pattern ns vs _ _ (all2_insert ns vs t ht k _ i) ?_) st e
+      intro s0 rest h
+      obtain ⟨s0', rest', h', hnode, _⟩ := first_test_of_supports p hsup
+      rw [h'] at h; cases h; exact hnode
+  simp only [pathTest, List.map_cons, List.map_nil, hc1, hc2, Option.getD_some, mkMatcher, traceCaller] at e2 ⊢
+  rw [e2, runTest_generic, runTest_generic, hstep]
+
+/-- **`./p` and `p` as patterns, with the strategies `Path.__init__` picks**: for every path `p`
+    of two or more steps that SimplePathStrategy supports, `Path.__init__` hands `./p` to
+    GenericStrategy, which drops the leading `./` in pattern mode (`stripDot`, genshi fix
+    b90ae9a), and `p` to SimplePathStrategy — same result at every event (`simple_eq_generic`). -/
+theorem self_prefix_default_choice_pattern (p : LocPath) (hsup : simpleSupports p = true)
+    (hpt : ∀ s ∈ p, s.axis ≠ .attribute → s.test.attrFlag = false) (h2 : 2 ≤ p.length)
+    (ns : NsMap) (vs : Vars) (skip : Bool)
+    (tag : QName) (attrs : AttrList) (kids : List Node)
+    (hcl : (Node.elem tag attrs kids).clean = true)
+    (hn : AllNodes (NodeFor p ns vs) (.elem tag attrs kids)) :
+    (chooseStrategy (dot :: p) = some .generic ∧ chooseStrategy p = some .simple) ∧
+    traceCaller (pathTest [dot :: p] true).1 ns vs skip
+        (pathTest [dot :: p] true).2 (Node.elem tag attrs kids).flatten
+      = traceCaller (pathTest [p] true).1 ns vs skip
+        (pathTest [p] true).2 (Node.elem tag attrs kids).flatten := by
+  have hne : p ≠ [] := by intro h; rw [h] at h2; simp at h2
+  have hc1 := chooses_generic_dot p hne
+  have hc2 := chooses_simple_of_supports p hsup h2
+  refine ⟨⟨hc1, hc2⟩, ?_⟩
+  have e2 := simple_eq_generic p hsup hpt true ns vs skip tag attrs kids hcl hn
+  have hg : gSteps (dot :: p) true = gSteps p true := by
+    cases p with
+    | nil => exact absurd rfl hne
+    | cons s1 rest => simp [gSteps, stripDot, dot]
+  simp only [pathTest, List.map_cons, List.map_nil, hc1, hc2, Option.getD_some, mkMatcher, traceCaller] at e2 ⊢
+  rw [e2, hg]
+
+-- non-vacuity: `./descendant::a/b/@x` and `descendant::a/b/@x` as patterns
+example : 2 ≤ pathKmpAttr.length := by decide
+example : runTest (pathTest [dot :: pathKmpAttr] true).1 [] [] (pathTest [dot :: pathKmpAttr] true).2
+    (Node.elem ⟨[], ['a']⟩ [] [Node.elem ⟨[], ['b']⟩ [(⟨[], ['x']⟩, ['1'])] []]).flatten
+    = [.none, .attrs [(⟨[], ['x']⟩, ['1'])], .none, .none] := by decide +kernel
 
 end Genshi.Props.C17
